@@ -19,7 +19,7 @@ CONFIG = worlda.base_config(
     "mutations, deliveries and packing interleaved under seeded schedules; exploration.",
     expected_probes=["pop3_quit_removed", "deliveries"],
 )
-SHAPES = ["plain", "dot-lines", "no-final-newline", "crlf", "empty-body", "multipart", "long-line", "folded"]
+SHAPES = ["plain", "dot-lines", "no-final-newline", "crlf", "empty-body", "multipart", "long-line", "folded", "mp-no-boundary"]
 
 
 def gen_pop(r, n):
@@ -112,7 +112,7 @@ def generate(seed, tier, index, kf):
 # ---------------------------------------------------------------------------
 # family "front": the same snapshot/size/termination clauses seen by a client of the real POP3 front-end
 # (asimap.pop3_server relaying to the real per-user server, World B)
-FRONT_SHAPES = ["plain", "dot-lines", "no-final-newline", "crlf", "long-line", "huge-line", "multipart"]
+FRONT_SHAPES = ["plain", "dot-lines", "no-final-newline", "crlf", "long-line", "huge-line", "multipart", "mp-no-boundary"]
 
 
 def generate_front(seed, tier):
